@@ -139,6 +139,9 @@ func init() {
 		if p.id == "C12" {
 			mp.add(e2PhaseFor("C12", e2Oracles{keys: true}))
 		}
+		if p.id == "C11" {
+			mp.add(racePlan(6, 60), func(w *W, idx int) { insertRound(w, idx) })
+		}
 		register(&Property{
 			ID: p.id, Level: "exploration", Rule: p.rule,
 			Assume: []string{"single goroutine in the lock-step histories (concurrency is decided by the E2/E3 monitors)", "generator respects the model boundaries of DESIGN.md 3.3",
